@@ -123,6 +123,8 @@ def gen_sources(ctx, nparts, thorough, tag):
                 continue
             for op, fn, lays in ops:
                 for l in lays:
+                    if p == () and (pn == 4 or (pn == 2 and l == "S")):
+                        continue          # rank-0 layout_stride conversions belong to probe 5
                     L.append('    {"%s/%s/%s", &%s<%s, P%d>},' % (op, l, iname(t, p), fn, LAYC[l], n))
         L += ["  };", "  return probe_lookup(t, c);", "}", "}"]
         src = os.path.join(gd, "probe%d.cc" % pn)
@@ -292,10 +294,11 @@ def gen(ctx, I, PI):
                 cases.append("p1cvt %s lay=%s E=%s S=%s" % (nm, l, lst(E), lst(Sc)))
                 cases.append("p1fs %s lay=%s E=%s S=%s base=%d" % (nm, l, lst(E), lst(Sc), base))
                 cases.append("p3alloc %s lay=%s E=%s S=- base=%d" % (nm, l, lst(E), base))
-                cases.append("p4eq %s lay=%s E=%s S=%s" % (nm, l, lst(E), lst(Sc)))
-                Sp = unique_strides(rng, E, "pad")
-                cases.append("p4eq %s lay=%s E=%s S=%s" % (nm, l, lst(E), lst(Sp)))
-            for l in "LRS":
+                if p != ():
+                    cases.append("p4eq %s lay=%s E=%s S=%s" % (nm, l, lst(E), lst(Sc)))
+                    Sp = unique_strides(rng, E, "pad")
+                    cases.append("p4eq %s lay=%s E=%s S=%s" % (nm, l, lst(E), lst(Sp)))
+            for l in ("LRS" if p != () else "LR"):
                 S = unique_strides(rng, E, "pad")
                 cases.append("p2conv %s lay=%s E=%s S=%s base=%d" % (nm, l, lst(E), lst(S), rng.choice([0, 2])))
     for t in "iuls":
@@ -471,6 +474,8 @@ def oracle(case, impl, model):
         p, v, w = il(d.get("p")), il(d.get("v")), il(d.get("w"))
         if il(d.get("ext")) != E or d.get("size") != str(prod(E)) or d.get("empty") != ("1" if prod(E) == 0 else "0") or d.get("rank") != str(len(E)):
             return "size", "size/extents/rank/empty inconsistent: %s" % impl[:120]
+        if len(E) > 0 and il(d.get("st")) != ss:
+            return "stride", "stride(r) reported %s, layout formula %s" % (d.get("st"), ss)
         if d.get("agree") != "1" or d.get("same") != "1":
             return "access-forms", "operator(), operator[](array), operator[](span) or the constructors disagree"
         for i, x in zip(T, p):
